@@ -415,7 +415,7 @@ pub enum Twin {
     Differs(String),
 }
 
-pub fn compare_twin(a: &RunResult, b: &RunResult, compare_allocs: &[bool], compare_recv: bool) -> Twin {
+pub fn compare_twin(a: &RunResult, b: &RunResult, compare_allocs: &[bool], compare_recv: bool, compare_history: bool) -> Twin {
     let shape = |r: &RunResult| -> Vec<(u8, bool, u32)> {
         r.events
             .iter()
@@ -447,7 +447,7 @@ pub fn compare_twin(a: &RunResult, b: &RunResult, compare_allocs: &[bool], compa
             .collect()
     };
     let (pa, pb) = (proj(a), proj(b));
-    if pa != pb {
+    if compare_history && pa != pb {
         let i = pa.iter().zip(&pb).position(|(x, y)| x != y).unwrap_or(pa.len().min(pb.len()));
         return Twin::Differs(format!(
             "history differs from the twin at event {i}: {:?} vs {:?}",
@@ -465,7 +465,7 @@ pub fn compare_twin(a: &RunResult, b: &RunResult, compare_allocs: &[bool], compa
         }
         m
     };
-    if drops(a) != drops(b) {
+    if compare_history && drops(a) != drops(b) {
         return Twin::Differs("the set of dropped moved arguments differs from the twin".into());
     }
     let allocs = |r: &RunResult| -> Vec<(u8, u32)> {
